@@ -207,12 +207,18 @@ func TypeBindingClauseHook(t StatementType) ClauseHook {
 func dataAccumulator(b literal.Builder) ElementHook {
 	var (
 		hook ElementHook
+		cur  *Statement
 		s    *node.Node
 		p    *predicate.Predicate
 		o    *triple.Object
 	)
 
 	hook = func(st *Statement, ce ConsumedElement) (ElementHook, error) {
+		if st != cur {
+			// A new statement starts from scratch, whatever a previous
+			// (possibly rejected) statement left half built.
+			cur, s, p, o = st, nil, nil, nil
+		}
 		if ce.IsSymbol() {
 			return hook, nil
 		}
@@ -354,9 +360,14 @@ func whereInitWorkingClause() ClauseHook {
 func whereSubjectClause() ElementHook {
 	var (
 		hook         ElementHook
+		cur          *Statement
 		lastNopToken *lexer.Token
 	)
 	hook = func(st *Statement, ce ConsumedElement) (ElementHook, error) {
+		if st != cur {
+			// Do not carry a pending modifier over from a previous statement.
+			cur, lastNopToken = st, nil
+		}
 		if ce.IsSymbol() {
 			return hook, nil
 		}
@@ -509,9 +520,14 @@ func processPredicateBound(ce ConsumedElement) (string, string, string, *time.Ti
 func wherePredicateClause() ElementHook {
 	var (
 		hook         ElementHook
+		cur          *Statement
 		lastNopToken *lexer.Token
 	)
 	hook = func(st *Statement, ce ConsumedElement) (ElementHook, error) {
+		if st != cur {
+			// Do not carry a pending modifier over from a previous statement.
+			cur, lastNopToken = st, nil
+		}
 		if ce.IsSymbol() {
 			return hook, nil
 		}
@@ -581,9 +597,14 @@ func wherePredicateClause() ElementHook {
 func whereObjectClause() ElementHook {
 	var (
 		hook         ElementHook
+		cur          *Statement
 		lastNopToken *lexer.Token
 	)
 	hook = func(st *Statement, ce ConsumedElement) (ElementHook, error) {
+		if st != cur {
+			// Do not carry a pending modifier over from a previous statement.
+			cur, lastNopToken = st, nil
+		}
 		if ce.IsSymbol() {
 			return hook, nil
 		}
@@ -785,9 +806,14 @@ func whereFilterClause() ElementHook {
 func varAccumulator() ElementHook {
 	var (
 		hook         ElementHook
+		cur          *Statement
 		lastNopToken *lexer.Token
 	)
 	hook = func(st *Statement, ce ConsumedElement) (ElementHook, error) {
+		if st != cur {
+			// Do not carry a pending modifier over from a previous statement.
+			cur, lastNopToken = st, nil
+		}
 		if ce.IsSymbol() {
 			return hook, nil
 		}
@@ -1025,10 +1051,15 @@ func limitCollection() ElementHook {
 func collectGlobalBounds() ElementHook {
 	var (
 		hook      ElementHook
+		cur       *Statement
 		opToken   *lexer.Token
 		lastToken *lexer.Token
 	)
 	hook = func(st *Statement, ce ConsumedElement) (ElementHook, error) {
+		if st != cur {
+			// Do not carry a half read bound over from a previous statement.
+			cur, opToken, lastToken = st, nil, nil
+		}
 		if ce.IsSymbol() {
 			return hook, nil
 		}
